@@ -9,6 +9,7 @@ package control_loop
 
 //@ ghost var lastCycleOut int
 //@ func (*DirectControlLoop).Cycle
+//@   params (l, target, current)
 //@   props C01 C04
 //@   ghostret lastCycleOut := result
 //@   ensures lastCycleOut == result
@@ -20,6 +21,7 @@ package control_loop
 //@   modifies l.lastTime, lastCycleOut
 
 //@ func (*PidControlLoop).Cycle
+//@   params (l, target, current)
 //@   props C01 C04
 //@   requires l.pidLoop != nil
 // every control cycle advances the PID loop (its clock, integral and last error) exactly once - otherwise the
@@ -30,5 +32,6 @@ package control_loop
 //@   modifies l.pidLoop.integral, l.pidLoop.error, l.pidLoop.lastTime, lastPidOut, pidSteps, lastCycleOut
 
 //@ func NewDirectControlLoop
+//@   params (maxPwmChangePerCycle)
 //@   ensures result != nil && fresh(result)
 //@   modifies nothing
